@@ -154,6 +154,22 @@ pub fn spec(id: &str) -> Option<PropSpec> {
             real: &["rsdd semantic_hash / cached_semantic_hash (BDD, SDD), create_semantic_hash_map, SemanticSddBuilder, SemanticDecisionNNFBuilder, StandardDecisionNNFBuilder, CompressionSddBuilder, RobddBuilder, FiniteField"],
             simulated: SIM_COMMON,
         },
+        "C18" => PropSpec {
+            id: "C18",
+            batches: vec![b("ffi", 60_000, 3_000_000, false)],
+            rule: "one case = one seeded run: a manager is created through the C interface (default order, linear order, or custom permutation via var_order_new) and 5-65 (thorough: 125) further extern \"C\" calls are issued (var/new_var/new_label/true/false/negate/and/or/ite/compose/compile_cnf via cnf_new+literal_new, eq, is_true/false/const, topvar/low/high, count_nodes, model_count, wmc real/complex/polynomial with weight tables built through the C setters and read back through the getters, to_json, print_bdd, scratch set/get/clear); a native RobddBuilder<AllIteTable> twin receives the corresponding Rust calls. Distinct = distinct event-log hash. Non-trivial = at least 3 calls and a non-constant diagram.",
+            states_measure: "distinct Boolean functions built through the C interface",
+            probe_prefixes: &["BddIte", "Table"],
+            assumptions: &[
+                "functions over at most 7 variables",
+                "bdd_low/bdd_high are only called on decision nodes (they are undefined on constants)",
+                "robdd_model_count is compared with the native sequence it wraps (smooth + finite-field count), not with the true model count (C08 is not claimed)",
+                "result boxes are never freed by the API; leak checking is off",
+                "seeded sampling, not exhaustive",
+            ],
+            real: &["rsdd extern \"C\" symbols of src/ffi/{bdd,wmc,cnf,var}.rs linked from the rlib, RobddBuilder<AllIteTable>, WmcParams, BDDSerializer"],
+            simulated: SIM_COMMON,
+        },
         _ => return None,
     })
 }
